@@ -94,11 +94,11 @@ def recheck(args):
         try:
             ok, how = apply_patch(os.path.join(d, "patch.diff"), patched)
             if not ok:
-                base, res = differential(os.path.join(d, "patch.diff"), args.only or ALL, args.tier, lambda c, ps, t: run_checks(c, ps, t))
-                if base is None:
+                base_commit, res = differential(os.path.join(d, "patch.diff"), args.only or ALL, args.tier, lambda c, ps, t: run_checks(c, ps, t))
+                if base_commit is None:
                     print(pid, "PATCH APPLIES TO NO KNOWN TREE")
                     continue
-                meta["differential_base"] = base
+                meta["differential_base"] = base_commit
             else:
                 res = run_checks(patched, args.only or ALL, args.tier)
             for r in res.values():
